@@ -205,7 +205,17 @@ def trace_values(trace):
             continue
         v = st.get("value", {})
         b = v.get("binary")
-        if b is None or "." in lhs.split("any_raw_")[-1]:
+        if "." in lhs.split("any_raw_")[-1]:
+            continue
+        if b is None:
+            # an input the solver left unassigned (it cannot influence the failure): CBMC prints it
+            # without a bit pattern.  It still occupies a position in the kani::any() sequence the native
+            # replay consumes, so it is kept, as zero, at its declared width.
+            w = v.get("width")
+            if w is None:
+                m = re.search(r"\[(\d+)\]", str(v.get("type", "")))
+                w = int(m.group(1)) if m else 8
+            vals.append("00" * max(1, int(w) // 8))
             continue
         n = len(b) // 8
         vals.append(int(b, 2).to_bytes(n, "little").hex())
@@ -570,6 +580,7 @@ def main():
     ap.add_argument("--keep", action="store_true")
     ap.add_argument("--jobs", type=int, default=int(os.environ.get("VERIF_JOBS", "0")) or (os.cpu_count() or 8))
     ap.add_argument("--no-evidence", action="store_true")
+    ap.add_argument("--skip-quick", action="store_true", help="developer aid: with --tier thorough, run only the harnesses the quick tier does not run")
     a = ap.parse_args()
     pid = a.prop
     seed = int(os.environ.get("VERIF_SEED", "0") or 0)
@@ -601,6 +612,8 @@ def main():
 def drive(pid, prop, a, seed, scratch, t0):
     tier = a.tier
     specs = [j for j in prop.jobs if j.tier != "x" and (tier == "thorough" or j.tier == "q")]  # tier "x": kept in the registry for reference, measured out of reach
+    if a.skip_quick:
+        specs = [j for j in specs if j.tier != "q"]
     if a.only:
         specs = [j for j in specs if any(x in j.harness for x in a.only.split(','))]
     if not specs:
@@ -693,6 +706,8 @@ def drive(pid, prop, a, seed, scratch, t0):
                      "native_output": rep["dev"]["output"][-1500:]}
             r["replays"].append(entry)
             if not repro:
+                log("    native replay of %s did not panic (dev rc=%s, release rc=%s); vals=%s; output tail: %s" % (
+                    job.spec.harness, rep["dev"]["rc"], rep["release"]["rc"], entry["vals"][:24], rep["dev"]["output"][-600:].replace("\n", " | ")))
                 inconclusive.append((job.spec.harness, "not-reproduced",
                                      "solver counterexample for '%s' does not reproduce natively (model/stub issue)" % t["description"]))
                 continue
@@ -728,7 +743,7 @@ def drive(pid, prop, a, seed, scratch, t0):
 
     wall = time.time() - t0
     if not a.no_evidence:
-        write_evidence(pid, prop, tier, seed, jobs, results, builds, pre, violations, known_hits, inconclusive, wall, partial=bool(a.only))
+        write_evidence(pid, prop, tier, seed, jobs, results, builds, pre, violations, known_hits, inconclusive, wall, partial=bool(a.only or a.skip_quick))
     if violations:
         return 1
     if inconclusive:
